@@ -1156,24 +1156,35 @@ func (fc *FuncCtx) mapsFrame(env *SpecEnv, except *Term) Term {
 	sortStrings(ks)
 	for _, k := range ks {
 		d := env.st.mdom[k]
-		ksort := d.Sort.Elem.Key
-		var vsort *Sort
-		if v, ok := env.st.mval[k]; ok {
-			vsort = v.Sort.Elem.Elem
-		} else if v, ok := env.old.mval[k]; ok {
-			vsort = v.Sort.Elem.Elem
-		} else {
-			continue
-		}
-		d0 := fc.mapDom(env.old, ksort, vsort)
-		v := fc.mapVal(env.st, ksort, vsort)
-		v0 := fc.mapVal(env.old, ksort, vsort)
 		ex := ""
 		if except != nil && mkey(except.Sort.Key, except.Sort.Elem) == k {
 			ex = fmt.Sprintf(" (not (= r %s))", except.S)
 		}
+		// domain frame: the entry constant of a lazily created component is <prefix><key>
+		d0, ok := env.old.mdom[k]
+		if !ok {
+			name := "mdom0_" + mangle(k)
+			fc.declare(name, d.Sort)
+			d0 = T(name, d.Sort)
+			env.old.mdom[k] = d0
+		}
 		if d.S != d0.S {
 			cs = append(cs, T(fmt.Sprintf("(forall ((r Int)) (! (=> (and (< r %s)%s) (= (select %s r) (select %s r))) :pattern ((select %s r))))", env.old.next.S, ex, d.S, d0.S, d.S), SBool))
+		}
+		v, okv := env.st.mval[k]
+		v0, okv0 := env.old.mval[k]
+		if !okv && !okv0 {
+			continue
+		}
+		if !okv0 {
+			name := "mval0_" + mangle(k)
+			fc.declare(name, v.Sort)
+			v0 = T(name, v.Sort)
+			env.old.mval[k] = v0
+		}
+		if !okv {
+			v = v0
+			env.st.mval[k] = v0
 		}
 		if v.S != v0.S {
 			cs = append(cs, T(fmt.Sprintf("(forall ((r Int)) (! (=> (and (< r %s)%s) (= (select %s r) (select %s r))) :pattern ((select %s r))))", env.old.next.S, ex, v.S, v0.S, v.S), SBool))
